@@ -11,7 +11,7 @@ namespace sim {
 struct Profile {
 	std::string name = "all";
 	// family weights
-	int w_ctor = 10, w_dtor = 3, w_assign = 10, w_move = 5, w_swap = 3, w_resize = 8, w_viewwrite = 10, w_read = 4, w_alloc_forms = 3, w_conv = 3, w_il = 3, w_save = 0, w_load = 0;
+	int w_ctor = 10, w_dtor = 3, w_assign = 10, w_move = 5, w_swap = 3, w_resize = 8, w_viewwrite = 10, w_read = 4, w_alloc_forms = 3, w_conv = 3, w_il = 3, w_save = 0, w_load = 0, w_mpi = 0;
 	bool faults_stream = false;
 	bool allow_overlap = false;  // generate overlapping same-root view assignments (differential C11 runs)
 	int fault_free_pct = 40;   // percentage of runs without any fault
@@ -30,6 +30,7 @@ inline Profile profile_by_name(std::string const& n) {
 	else if(n == "fault") { p.fault_free_pct = 0; }
 	else if(n == "alloc") { p.w_alloc_forms = 14; p.w_move = 12; p.w_swap = 6; p.w_assign = 12; p.w_viewwrite = 2; p.w_resize = 5; p.max_arenas = 4; p.fault_free_pct = 75; p.faults_elem = false; }
 	else if(n == "nofault") { p.fault_free_pct = 100; }
+	else if(n == "mpi") { p.fault_free_pct = 100; p.w_mpi = 40; p.w_viewwrite = 6; p.w_resize = 4; p.w_conv = 0; p.w_il = 1; p.w_ctor = 12; }
 	else if(n == "c11") { p.fault_free_pct = 100; p.allow_overlap = true; p.w_viewwrite = 18; }
 	else if(n == "ser") { p.w_save = 14; p.w_load = 18; p.w_viewwrite = 5; p.w_resize = 6; p.w_ctor = 12; p.w_conv = 1; p.w_il = 1; p.faults_stream = true; p.fault_free_pct = 60; }
 	else if(n == "serfault") { p.w_save = 14; p.w_load = 18; p.w_viewwrite = 5; p.w_resize = 6; p.w_ctor = 12; p.w_conv = 1; p.w_il = 1; p.faults_stream = true; p.fault_free_pct = 0; }
@@ -282,6 +283,12 @@ struct Gen {
 				o.var  = rng.below(2);
 				break;
 			}
+			case 13: {  // MPI
+				o.kind = rng.chance(1, 3) ? O_MSG_PACK : O_MSG_XFER;
+				o.a    = alive_slot(D);
+				o.var  = rng.below(16);
+				break;
+			}
 			case 12: {  // load
 				o.kind = O_LOAD;
 				std::vector<int> fs;
@@ -448,6 +455,19 @@ struct Gen {
 				break;
 			}
 			case O_ASSIGN_SELF: if(family == 2) o.var = rng.below(2); break;
+			case O_MSG_PACK: case O_MSG_XFER: {
+				MView sv;
+				if(!find_view(D, o.a, -1, nullptr, false, o.ca, sv) || sv.count() == 0) continue;
+				if(o.kind == O_MSG_XFER) {
+					o.db = any_alive_dim();
+					if(o.db < 0) continue;
+					o.b = alive_slot(o.db);
+					MView dv;
+					bool  found = rng.chance(1, 2) && fit_view(o.db, o.b, sv, o.cb, dv);
+					if(!found && !find_view(o.db, o.b, -1, &sv, true, o.cb, dv, 20)) continue;
+				}
+				break;
+			}
 			case O_SAVE: {
 				if(o.var == 1) {
 					MView v;
@@ -517,7 +537,7 @@ struct Gen {
 			else nops = rng.range(26, P.max_ops);
 		}
 		// swarm: disable a random subset of families for this run
-		std::vector<int> w = {P.w_ctor, P.w_dtor, P.w_assign, P.w_move, P.w_swap, P.w_resize, P.w_viewwrite, P.w_read, P.w_alloc_forms, P.w_conv, P.w_il, T.serialization ? P.w_save : 0, T.serialization ? P.w_load : 0};
+		std::vector<int> w = {P.w_ctor, P.w_dtor, P.w_assign, P.w_move, P.w_swap, P.w_resize, P.w_viewwrite, P.w_read, P.w_alloc_forms, P.w_conv, P.w_il, T.serialization ? P.w_save : 0, T.serialization ? P.w_load : 0, T.mpi ? P.w_mpi : 0};
 		for(std::size_t k = 1; k < w.size(); ++k)
 			if(rng.chance(1, 5) && k < 11) w[k] = 0;
 		if(narena == 1) w[8] = w[8] / 2;
